@@ -199,3 +199,23 @@ Proof.
   intros h lvl new var preds Ss names h'. exact (insert_cb_h_keeps_ctrace h lvl new var preds Ss names h' true).
 Qed.
 Print Assumptions C06_header_unification_any_level_ctrl_safe.
+
+(* the loop rotation (one header) at ANY level of a hierarchy keeps "every decision list can be walked", in
+   the strict reading: the CTrace twin of C01_loop_rotation_any_level_preserves_paths_b, same boolean premise *)
+From V Require Import Model.LoopEdit Model.LoopHier Model.LoopPath Model.LoopHierApplic.
+Theorem C06_loop_rotation_any_level_ctrl_safe_b :
+  forall h lvl top hd exits todo isback latch sexit ev bv fresh,
+    walk_pre_rot h lvl top hd exits todo isback latch sexit ev bv fresh = true ->
+    exists nl g1 g1',
+      find h lvl = Some nl /\ collect h (children_h nl) = Some g1 /\
+      loop_rotate g1 hd [hd] exits todo false [] isback latch sexit ev bv fresh = Ok g1' /\
+      forall n e e' ds,
+        (exists b p, find h n = Some b /\ n_kind b = KOrig p) ->
+        E (Fl ev bv) e e' ->
+        CTrace h (resolve_flat h) true n e ds ->
+        CTrace (write_back h lvl g1') (resolve_flat (write_back h lvl g1')) true n e' ds.
+Proof.
+  intros h lvl top hd exits todo isback latch sexit ev bv fresh.
+  exact (loop_rotate_h_keeps_ctrace_b h lvl top hd exits todo isback latch sexit ev bv fresh true).
+Qed.
+Print Assumptions C06_loop_rotation_any_level_ctrl_safe_b.
